@@ -393,6 +393,17 @@ def mt4(F, R):
     R.require(ids == sorted(M["fat_types"]), orv, "mbr:types", "accepted partition types %s, expected %s" % (ids, sorted(M["fat_types"])))
     # MBR signature: 0xAA55 read little-endian from bytes 510..512 of block 0, everything else refused
     is_sig = lambda q: q[0] == "call" and q[1] and q[1].endswith("read_u16") and has_sub(q, lambda z: z[0] == "agg" and z[2] and z[2].endswith("Range") and len(z[3]) == 2 and z[3][0][:2] == ("c", M["signature_offset"]) and z[3][1][:2] == ("c", M["signature_offset"] + 2))
+    _is_sig0 = is_sig
+
+    def is_sig(q):
+        if _is_sig0(q):
+            return True
+        # u16::from_le_bytes([block[510], block[511]])
+        if q[0] == "call" and q[1] and q[1].endswith("from_le_bytes") and len(q[2]) == 1:
+            a_ = strip_refs(q[2][0])
+            if a_[0] == "agg" and a_[1] == "Array" and len(a_[3]) == 2:
+                return all(has_sub(a_[3][k_], lambda z, k_=k_: z[:2] == ("c", M["signature_offset"] + k_)) for k_ in (0, 1))
+        return False
     pv_sites = [b for b, t in orv.calls() if (t.get("callee") or "").endswith("parse_volume")]
     oksig = compared_constants(orv, is_sig) == {M["signature"]}
     for v in (M["signature"], 0, 0x55AA, M["signature"] ^ 1, 0xFFFF):
